@@ -117,3 +117,20 @@ Theorem C03_unsigned_irrelevant :
 Proof. exact unsigned_irrelevant. Qed.
 Eval compute in "PA:C03_unsigned_irrelevant"%string.
 Print Assumptions C03_unsigned_irrelevant.
+
+(** Verifying the redacted copy of a verified event (same room version 1-11) again reports
+    valid signatures, provided the redacted copy demands no additional server and is within
+    the size limit; its hash status is recomputed from the redacted content. *)
+Theorem C03_redacted_copy_verifies :
+  forall user_server event_server H verify pkm v R o vd red servers' calc',
+  rules_of v = Some R -> wf_obj o ->
+  verify_event user_server event_server H verify pkm o R = Ok vd ->
+  redact (redaction R) o None = Ok red ->
+  servers_to_check user_server event_server (signatures R) red = Ok servers' ->
+  (forall l, servers_to_check user_server event_server (signatures R) o = Ok l -> forall s, In s servers' -> In s l) ->
+  content_hash H red = Ok calc' ->
+  exists hash, stored_hash o = Ok hash /\
+    verify_event user_server event_server H verify pkm red R = Ok (verdict_of hash calc').
+Proof. exact redacted_copy_verifies. Qed.
+Eval compute in "PA:C03_redacted_copy_verifies"%string.
+Print Assumptions C03_redacted_copy_verifies.
